@@ -1,6 +1,45 @@
 """C11 part C: every real Packet.pack() of a stream of generated declarations runs with
 bisturi.packet.Fragments replaced by the shadowing subclass (monitors.ShadowingFragments)."""
+import io
+import os
+import shutil
+import sys
+import unittest
+
 from . import common, harness, model, monitors, render
+
+
+def repo_tests_under_monitor(run):
+    """Part D: the repository's own unit tests (a scratch copy of /repo/tests, so that their generated code
+    lands outside the repository) executed in-process with bisturi.packet.Fragments replaced by the
+    shadowing subclass: every pack() of the pinned suite is also a C11 execution."""
+    src = os.path.join(common.REPO, "tests")
+    if not os.path.isdir(src):
+        run.count("repo_tests_missing")
+        return
+    d = common.scratch_dir("bvf_c11d_")
+    dst = os.path.join(d, "tests")
+    shutil.copytree(src, dst, ignore=shutil.ignore_patterns("__pkts__", "__pycache__", "ds"))
+    old_path = list(sys.path)
+    old_cwd = os.getcwd()
+    try:
+        os.chdir(dst)
+        sys.path.insert(0, dst)
+        with monitors.fragments_monitor() as mon:
+            suite = unittest.defaultTestLoader.discover(dst, pattern="test_*.py", top_level_dir=dst)
+            res = unittest.TextTestRunner(stream=io.StringIO(), verbosity=0).run(suite)
+            run.count("repo_tests_run_under_monitor", res.testsRun)
+            run.count("repo_tests_failed_under_monitor(not judged here)", len(res.failures) + len(res.errors))
+            run.count("repo_test_packs_monitored", mon.packs)
+            run.count("repo_test_inserts_monitored", mon.inserts)
+            for v in mon.violations[:3]:
+                run.violation("pinned test suite under the fragment monitor: " + v["what"], {"part": "D", **v}, None)
+    finally:
+        os.chdir(old_cwd)
+        sys.path[:] = old_path
+        for k in [k for k in sys.modules if k.startswith("test_")]:
+            sys.modules.pop(k, None)
+        common.drop_scratch(d)
 
 
 def monitored_pack_stream(run, rng, n_decls=40, inputs_per_decl=6):
